@@ -274,7 +274,8 @@ impl Check {
     {
         if let Some(rp) = &self.replay {
             if rp.section == section {
-                self.do_replay(section, &rp.case, &f);
+                // on a pool thread: same 64 MiB stack as the exploration
+                self.pool.install(|| self.do_replay(section, &rp.case, &f));
             }
             return;
         }
@@ -545,7 +546,7 @@ impl Check {
     fn do_replay<C, F>(&self, section: &str, case: &Value, f: &F)
     where
         C: Serialize + DeserializeOwned,
-        F: Fn(&C) -> Verdict,
+        F: Fn(&C) -> Verdict + Sync,
     {
         let c: C = match serde_json::from_value(case.clone()) {
             Ok(c) => c,
